@@ -428,7 +428,7 @@ def check_c18(tier, seed, log=print):
                                           what='the tokenizer/parse_definition model (Attr.parseArgs, repaired rule) and the real parser disagree on this argument list',
                                           correspondence='T-D AttributeParser vs LogosModel.Attr'), no_input=True, key='attrtie|' + c['src'])
     for g, idxs in groups.items():
-        logos_level = cases[idxs[0]]['family'] == 'c18-logos'
+        logos_level = cases[idxs[0]]['family'] in ('c18-logos', 'c18-logos-pairs')
         sigf = lexer_sig if logos_level else sig_of
         base = sigf(caps[idxs[0]])
         if len(idxs) > 2:
